@@ -62,6 +62,26 @@ func c18Diff(before, after map[string][]byte) (created, changed, removed []strin
 	return
 }
 
+// c18RecBucket is a BucketHandle that logs every name a handler constructs
+// (Object) and every listing prefix (Objects) before passing it on to the real
+// FS bucket.
+type c18RecBucket struct {
+	storage.BucketHandle
+	label string // which bucket of the service
+	dir   string // the bucket's directory
+	log   *[]rt.M
+}
+
+func (b *c18RecBucket) Object(name string) storage.ObjectHandle {
+	*b.log = append(*b.log, rt.M{"call": "Object", "bucket": b.label, "base": b.dir, "name": name})
+	return b.BucketHandle.Object(name)
+}
+
+func (b *c18RecBucket) Objects(ctx context.Context, prefix string) storage.ObjectIterator {
+	*b.log = append(*b.log, rt.M{"call": "Objects", "bucket": b.label, "base": b.dir, "name": prefix})
+	return b.BucketHandle.Objects(ctx, prefix)
+}
+
 func TestVerifC18Worker(t *testing.T) {
 	defer rt.Flush()
 	var in struct {
@@ -103,13 +123,29 @@ func TestVerifC18Worker(t *testing.T) {
 			t.Fatal(err)
 		}
 	}
+	// the handlers get recording buckets around the real ones
+	var names []rt.M
+	absRoot, _ := filepath.Abs(root)
+	wrap := func(label string, b storage.BucketHandle, bucket string) storage.BucketHandle {
+		return &c18RecBucket{b, label, filepath.Join(absRoot, bucket), &names}
+	}
+	recAPI := &storage.API{
+		Upload: wrap("upload", buckets.Upload, cfg.UploadBucket),
+		Merge:  wrap("merge", buckets.Merge, cfg.MergedBucket),
+		Chart:  wrap("chart", buckets.Chart, cfg.ChartDataBucket),
+	}
+	// source of the copy service (the handler opens it itself, by this name)
+	os.MkdirAll(filepath.Join(root, "prod-telemetry-uploaded", "2023-01-05"), 0777)
+	os.WriteFile(filepath.Join(root, "prod-telemetry-uploaded", "2023-01-05", "0.5.json"), []byte(`{"Week":"2023-01-05","X":0.5}`+"\n"), 0666)
 	handlers := map[string]http.Handler{
-		"merge": handleMerge(buckets),
-		"chart": handleChart(ucfg, buckets),
+		"merge": handleMerge(recAPI),
+		"chart": handleChart(ucfg, recAPI),
+		"copy":  handleCopy(cfg, recAPI),
 	}
 	allowed := map[string]string{
 		"merge": "root/" + cfg.MergedBucket + "/",
 		"chart": "root/" + cfg.ChartDataBucket + "/",
+		"copy":  "root/" + cfg.UploadBucket + "/",
 	}
 	n := 0
 	for _, rq := range in.Requests {
@@ -122,6 +158,7 @@ func TestVerifC18Worker(t *testing.T) {
 			q.Set(k, v)
 		}
 		before := c18Snapshot(parent)
+		names = nil
 		rec := httptest.NewRecorder()
 		var perr any
 		func() {
@@ -142,6 +179,10 @@ func TestVerifC18Worker(t *testing.T) {
 		}
 		if len(esc) > 0 {
 			rt.Out(rt.M{"kind": "escape", "svc": rq.Svc, "query": rq.Query, "paths": esc, "status": rec.Code})
+		}
+		for _, nm := range names {
+			nm["kind"], nm["svc"], nm["handler"], nm["req"] = "name", "worker", rq.Svc, "/"+rq.Svc+"/?"+q.Encode()
+			rt.Out(nm)
 		}
 		rt.Out(rt.M{"kind": "req", "svc": rq.Svc, "query": rq.Query, "status": rec.Code, "created": created, "changed": changed})
 	}
